@@ -14,6 +14,7 @@ CHECKED VERBATIM (objects, dicts, weak references - not translatable): the resid
 sort, shuffle and the whole bodies of groupby, set, agg, __getitem__, add, discard, remove, _update.
 Proofs/AgentSetBridge.v proves `model function = generated function`."""
 import ast
+import re
 
 import pyexpr
 import translate as T
@@ -31,11 +32,35 @@ def _body(fn):
             if not (isinstance(s, ast.Expr) and isinstance(s.value, ast.Constant) and isinstance(s.value.value, str))]
 
 
-def _fn(name, params):
-    defs = [n for n in _cls().body if isinstance(n, ast.FunctionDef) and n.name == name]
+def _norm(fn):
+    """deep copy of fn with its local variables alpha-renamed to v0, v1, ... (pyexpr.local_names order)"""
+    import copy
+
+    fn = copy.deepcopy(fn)
+    mapping = {n: f"v{i}" for i, n in enumerate(pyexpr.local_names(fn))}
+    return pyexpr._Renamer(mapping).visit(fn)
+
+
+def _canon(fn, mapping):
+    """give the structurally identified locals the canonical names the translator and the expected texts use"""
+    if len(set(mapping.values())) != len(mapping):
+        raise T.Broken("cannot identify the local variables")
+    return pyexpr._Renamer(mapping).visit(fn)
+
+
+def _name(t):
+    if not isinstance(t, ast.Name):
+        raise T.Broken("expected a plain local variable")
+    return t.id
+
+
+def _fn(name, params, cls=None):
+    """the (last) definition of a method, compared / translated MODULO the names of its local variables,
+    docstrings, comments and formatting"""
+    defs = [n for n in (cls or _cls()).body if isinstance(n, ast.FunctionDef) and n.name == name]
     if not defs:
         raise T.Broken(f"function {name} not found")
-    fn = defs[-1]     # after the @overload stubs
+    fn = _norm(defs[-1])     # after the @overload stubs
     got = [a.arg for a in fn.args.args]
     if got != params:
         raise T.Broken(f"unexpected parameters of {name}: {got}")
@@ -135,15 +160,24 @@ def _select_parts():
     b = _body(fn)
     if len(b) != 6:
         raise T.Broken(f"select has {len(b)} statements, expected 6")
+    # identify the locals by their role, whatever they are called
+    gen0 = b[3]
+    if not (isinstance(b[0], ast.Assign) and isinstance(gen0, ast.FunctionDef) and isinstance(b[4], ast.Assign)):
+        raise T.Broken("select is not `<inf> = ..; if ..; if ..; def <generator>; <agents> = ..; return ..`")
+    g0 = _body(gen0)
+    if not (len(g0) == 2 and isinstance(g0[0], ast.Assign) and isinstance(g0[1], ast.For)):
+        raise T.Broken("the nested generator is not `<count> = ..; for <agent> in self: ...`")
+    fn = _canon(fn, {_name(b[0].targets[0]): "inf", _name(b[4].targets[0]): "agents",
+                     _name(g0[0].targets[0]): "count", _name(g0[1].target): "agent"})
+    b = _body(fn)
     inf, fast, conv, gen, call, ret = b
     if not (isinstance(fast, ast.If) and not fast.orelse and len(fast.body) == 1 and isinstance(fast.body[0], ast.Return)):
         raise T.Broken("expected `if <fast path>: return ...`")
     if not (isinstance(conv, ast.If) and not conv.orelse and len(conv.body) == 1 and isinstance(conv.body[0], ast.Assign)
             and ast.unparse(conv.body[0].targets[0]) == "at_most"):
         raise T.Broken("expected `if <float test>: at_most = ...`")
-    if not (isinstance(gen, ast.FunctionDef) and gen.name == "agent_generator"
-            and [a.arg for a in gen.args.args] == ["filter_func", "agent_type", "at_most"]):
-        raise T.Broken("expected the nested generator agent_generator(filter_func, agent_type, at_most)")
+    if not (isinstance(gen, ast.FunctionDef) and [a.arg for a in gen.args.args] == ["filter_func", "agent_type", "at_most"]):
+        raise T.Broken("expected a nested generator with parameters (filter_func, agent_type, at_most)")
     if not isinstance(ret, ast.Return):
         raise T.Broken("expected a final return")
     return inf, fast, conv, gen, call, ret
@@ -236,9 +270,9 @@ def c_select_inplace():
 
 
 def c_select_skeleton():
-    inf, _, _, _, call, ret = _select_parts()
+    inf, _, _, gen, call, ret = _select_parts()
     got = [ast.unparse(inf), ast.unparse(call)]
-    want = ["inf = float('inf')", "agents = agent_generator(filter_func, agent_type, at_most)"]
+    want = ["inf = float('inf')", f"agents = {gen.name}(filter_func, agent_type, at_most)"]
     if got != want:
         raise T.Broken(f"glue statements of select changed: {got}")
     r = ast.unparse(ret.value)
@@ -251,9 +285,10 @@ def c_select_skeleton():
 def _sort_parts():
     fn = _fn("sort", ["self", "key", "ascending", "inplace"])
     b = _body(fn)
-    if len(b) != 3:
-        raise T.Broken(f"sort has {len(b)} statements, expected 3")
-    return b
+    if len(b) != 3 or not isinstance(b[1], ast.Assign):
+        raise T.Broken("sort is not `if ..: key = ..; <sorted> = sorted(..); return ..`")
+    fn = _canon(fn, {_name(b[1].targets[0]): "sorted_agents"})
+    return _body(fn)
 
 
 def c_sort_reverse():
@@ -285,6 +320,9 @@ def c_sort_inplace():
 def c_shuffle():
     fn = _fn("shuffle", ["self", "inplace"])
     b = _body(fn)
+    if len(b) >= 1 and isinstance(b[0], ast.Assign):
+        fn = _canon(fn, {_name(b[0].targets[0]): "weakrefs"})
+        b = _body(fn)
     want0 = ["weakrefs = list(self._agents.keyrefs())", "self.random.shuffle(weakrefs)"]
     if len(b) != 3 or [ast.unparse(s) for s in b[:2]] != want0 or not isinstance(b[2], ast.If):
         raise T.Broken("shuffle is not `weakrefs = ..; self.random.shuffle(weakrefs); if ..: .. else: ..`")
@@ -296,10 +334,10 @@ def c_shuffle():
         pre = [ast.unparse(s) for s in stmts[:-1]]
         r = ast.unparse(stmts[-1].value)
         if r == "self":
-            if pre != ["self._agents.data = {entry: None for entry in weakrefs}"]:
+            if len(pre) != 1 or not re.fullmatch(r"self\._agents\.data = \{(v\d+): None for \1 in weakrefs\}", pre[0]):
                 raise pyexpr.Unsupported("the in-place branch does not rebuild data from weakrefs")
             return "true"
-        if pre == [] and r == "AgentSet((agent for ref in weakrefs if (agent := ref()) is not None), self.random)":
+        if pre == [] and re.fullmatch(r"AgentSet\(\((v\d+) for (v\d+) in weakrefs if \(\1 := \2\(\)\) is not None\), self\.random\)", r):
             return "false"
         raise pyexpr.Unsupported("unexpected branch of shuffle")
     t = _tr("shuffle branches", lambda: f"(if {ATr().bexpr(br.test)} then {branch(br.body)} else {branch(br.orelse)})")
@@ -309,27 +347,31 @@ def c_shuffle():
 # ------------------------------------------------------------------ get
 def _comp_tag(e):
     """classify `[getattr(agent, n[, default]) for agent in self._agents]` / the nested form: 2*default + nested"""
-    def leaf(c, var):
+    def leaf(c, agent, var):
         if not (isinstance(c, ast.Call) and ast.unparse(c.func) == "getattr" and not c.keywords and len(c.args) in (2, 3)
-                and ast.unparse(c.args[0]) == "agent" and ast.unparse(c.args[1]) == var):
-            raise pyexpr.Unsupported("comprehension element is not getattr(agent, name[, default])")
+                and ast.unparse(c.args[0]) == agent and ast.unparse(c.args[1]) == var):
+            raise pyexpr.Unsupported("comprehension element is not getattr(<agent>, <name>[, default])")
         if len(c.args) == 3 and ast.unparse(c.args[2]) != "default_value":
             raise pyexpr.Unsupported("unexpected default")
         return len(c.args) == 3
-    if not (isinstance(e, ast.ListComp) and len(e.generators) == 1 and ast.unparse(e.generators[0].target) == "agent"
+    if not (isinstance(e, ast.ListComp) and len(e.generators) == 1 and isinstance(e.generators[0].target, ast.Name)
             and ast.unparse(e.generators[0].iter) == "self._agents" and not e.generators[0].ifs):
         raise pyexpr.Unsupported("not a comprehension over self._agents")
+    agent = e.generators[0].target.id
     if isinstance(e.elt, ast.ListComp):
         g = e.elt.generators
-        if not (len(g) == 1 and ast.unparse(g[0].target) == "attr" and ast.unparse(g[0].iter) == "attr_names" and not g[0].ifs):
+        if not (len(g) == 1 and isinstance(g[0].target, ast.Name) and ast.unparse(g[0].iter) == "attr_names" and not g[0].ifs):
             raise pyexpr.Unsupported("inner comprehension is not over attr_names")
-        return 2 * int(leaf(e.elt.elt, "attr")) + 1
-    return 2 * int(leaf(e.elt, "attr_names"))
+        return 2 * int(leaf(e.elt.elt, agent, g[0].target.id)) + 1
+    return 2 * int(leaf(e.elt, agent, "attr_names"))
 
 
 def c_get():
     fn = _fn("get", ["self", "attr_names", "handle_missing", "default_value"])
     b = _body(fn)
+    if len(b) == 2 and isinstance(b[0], ast.Assign):
+        fn = _canon(fn, {_name(b[0].targets[0]): "is_single_attr"})
+        b = _body(fn)
     if not (len(b) == 2 and ast.unparse(b[0]) == "is_single_attr = isinstance(attr_names, str)" and isinstance(b[1], ast.If)):
         raise T.Broken("get is not `is_single_attr = isinstance(attr_names, str); if ...`")
     tr = ATr()
@@ -382,41 +424,104 @@ def c_defaults():
 
 
 # ------------------------------------------------------------------ verbatim glue (objects, dicts, weak references)
+# statements modulo the names of local variables (v0, v1, ... in order of first binding), docstrings, comments, formatting
 SKELETONS = {
     "__len__": (["self"], ["return len(self._agents)"]),
     "__iter__": (["self"], ["return self._agents.keys()"]),
     "__contains__": (["self", "agent"], ["return agent in self._agents"]),
-    "_update": (["self", "agents"], ["self._agents = weakref.WeakKeyDictionary({agent: None for agent in agents})", "return self"]),
+    "_update": (["self", "agents"], ["self._agents = weakref.WeakKeyDictionary({v0: None for v0 in agents})", "return self"]),
     "groupby": (["self", "by", "result_type"], [
-        "groups = defaultdict(list)",
-        "if isinstance(by, Callable):\n    for agent in self:\n        groups[by(agent)].append(agent)\n"
-        "else:\n    for agent in self:\n        groups[getattr(agent, by)].append(agent)",
-        "if result_type == 'agentset':\n    return GroupBy({k: AgentSet(v, random=self.random) for k, v in groups.items()})\n"
-        "else:\n    return GroupBy(groups)"]),
-    "set": (["self", "attr_name", "value"], ["for agent in self:\n    setattr(agent, attr_name, value)", "return self"]),
-    "agg": (["self", "attribute", "func"], ["values = self.get(attribute)", "return func(values)"]),
+        "v0 = defaultdict(list)",
+        "if isinstance(by, Callable):\n    for v1 in self:\n        v0[by(v1)].append(v1)\n"
+        "else:\n    for v1 in self:\n        v0[getattr(v1, by)].append(v1)",
+        "if result_type == 'agentset':\n    return GroupBy({v2: AgentSet(v3, random=self.random) for v2, v3 in v0.items()})\n"
+        "else:\n    return GroupBy(v0)"]),
+    "set": (["self", "attr_name", "value"], ["for v0 in self:\n    setattr(v0, attr_name, value)", "return self"]),
+    "agg": (["self", "attribute", "func"], ["v0 = self.get(attribute)", "return func(v0)"]),
     "__getitem__": (["self", "item"], ["return list(self._agents.keys())[item]"]),
     "add": (["self", "agent"], ["self._agents[agent] = None"]),
     "discard": (["self", "agent"], ["with contextlib.suppress(KeyError):\n    del self._agents[agent]"]),
     "remove": (["self", "agent"], ["del self._agents[agent]"]),
 }
+GROUPBY_SKELETONS = {
+    "map": (["self", "method"], [
+        "if isinstance(method, str):\n    return {v0: getattr(v1, method)(*args, **kwargs) for v0, v1 in self.groups.items()}\n"
+        "else:\n    return {v0: method(v1, *args, **kwargs) for v0, v1 in self.groups.items()}"]),
+    "do": (["self", "method"], [
+        "if isinstance(method, str):\n    for v0 in self.groups.values():\n        getattr(v0, method)(*args, **kwargs)\n"
+        "else:\n    for v0 in self.groups.values():\n        method(v0, *args, **kwargs)",
+        "return self"]),
+    "__init__": (["self", "groups"], ["self.groups: dict[Any, list | AgentSet] = groups"]),
+}
 
 
 def c_glue():
-    for name, (params, want) in SKELETONS.items():
-        fn = _fn(name, params)
-        got = [ast.unparse(s) for s in _body(fn)]
-        if got != want:
-            d = next((f"{a!r} != {b!r}" for a, b in zip(got, want) if a != b), f"{len(got)} statements, expected {len(want)}")
-            raise T.Broken(f"statements of AgentSet.{name} changed: {d[:200]}")
+    gbcls = T._find_class(T._parse(SRC), "GroupBy")
+    for cname, cls, table in (("AgentSet", None, SKELETONS), ("GroupBy", gbcls, GROUPBY_SKELETONS)):
+        for name, (params, want) in table.items():
+            fn = _fn(name, params, cls)
+            got = [ast.unparse(s) for s in _body(fn)]
+            if got != want:
+                d = next((f"{a!r} != {b!r}" for a, b in zip(got, want) if a != b), f"{len(got)} statements, expected {len(want)}")
+                raise T.Broken(f"statements of {cname}.{name} changed: {d[:200]}")
     init = T._find_func(_cls(), "__init__")
-    last = ast.unparse(_body(init)[-1])
-    if last != "self._agents = weakref.WeakKeyDictionary({agent: None for agent in agents})":
+    last = ast.unparse(_body(_norm(init))[-1])
+    if last != "self._agents = weakref.WeakKeyDictionary({v0: None for v0 in agents})":
         raise T.Broken("AgentSet.__init__ no longer builds the key dictionary from `agents`")
     return "Definition gen_agentset_glue_ok : bool := true."
 
 
+# ------------------------------------------------------------------ GroupBy.count / GroupBy.agg: comprehension translated
+def _group_comp(name, params):
+    """`return {K: <value> for K, V in self.groups.items()}` -> (value expression, K, V)"""
+    fn = _fn(name, params, T._find_class(T._parse(SRC), "GroupBy"))
+    b = _body(fn)
+    if not (len(b) == 1 and isinstance(b[0], ast.Return) and isinstance(b[0].value, ast.DictComp)):
+        raise T.Broken(f"GroupBy.{name} is not a single dict comprehension")
+    dc = b[0].value
+    g = dc.generators
+    if not (len(g) == 1 and not g[0].ifs and ast.unparse(g[0].iter) == "self.groups.items()" and isinstance(g[0].target, ast.Tuple)
+            and len(g[0].target.elts) == 2 and all(isinstance(x, ast.Name) for x in g[0].target.elts)
+            and isinstance(dc.key, ast.Name) and dc.key.id == g[0].target.elts[0].id):
+        raise T.Broken(f"GroupBy.{name} is not `{{k: .. for k, v in self.groups.items()}}`")
+    return dc.value, g[0].target.elts[1].id
+
+
+def _gexpr(e, grp, agent=None):
+    """group-level expressions: len(<group>), <func>(<list>), [<elt> for a in <group>], getattr(a, attr_name)"""
+    if isinstance(e, ast.Call) and not e.keywords and len(e.args) == 1 and ast.unparse(e.func) == "len" \
+            and isinstance(e.args[0], ast.Name) and e.args[0].id == grp:
+        return "(Z.of_nat (length v))"
+    if isinstance(e, ast.Call) and not e.keywords and len(e.args) == 1 and ast.unparse(e.func) == "func":
+        return f"(func {_gexpr(e.args[0], grp, agent)})"
+    if isinstance(e, ast.ListComp) and len(e.generators) == 1 and not e.generators[0].ifs and isinstance(e.generators[0].target, ast.Name) \
+            and isinstance(e.generators[0].iter, ast.Name) and e.generators[0].iter.id == grp:
+        return f"(map (fun a => {_gexpr(e.elt, grp, e.generators[0].target.id)}) v)"
+    if isinstance(e, ast.Call) and not e.keywords and ast.unparse(e.func) == "getattr" and len(e.args) == 2 \
+            and isinstance(e.args[0], ast.Name) and e.args[0].id == agent and ast.unparse(e.args[1]) == "attr_name":
+        return "(getattr a)"
+    raise pyexpr.Unsupported(ast.unparse(e)[:60])
+
+
+def c_group_count():
+    val, grp = _group_comp("count", ["self"])
+    t = _tr("GroupBy.count", lambda: _gexpr(val, grp))
+    return ("Definition gen_group_count (groups : list (Z * list Z)) : list (Z * Z) :=\n"
+            f"  map (fun e => let '(k, v) := e in (k, {t})) groups.")
+
+
+def c_group_agg():
+    val, grp = _group_comp("agg", ["self", "attr_name", "func"])
+    t = _tr("GroupBy.agg", lambda: _gexpr(val, grp))
+    return ("Definition gen_group_agg {R : Type} (func : list Z -> R) (getattr : Z -> Z) (groups : list (Z * list Z))\n"
+            f"  : list (Z * R) :=\n  map (fun e => let '(k, v) := e in (k, {t})) groups.")
+
+
 CONSTRUCTS = [
+    ("agentset_groupby_count", SRC, c_group_count,
+     lambda: "Definition gen_group_count (groups : list (Z * list Z)) : list (Z * Z) := []."),
+    ("agentset_groupby_agg", SRC, c_group_agg,
+     lambda: "Definition gen_group_agg {R : Type} (func : list Z -> R) (getattr : Z -> Z) (groups : list (Z * list Z)) : list (Z * R) := []."),
     ("agentset_select_fast", SRC, c_select_fast, lambda: "Definition gen_select_fast (a b c : bool) : bool := negb c."),
     ("agentset_select_limit", SRC, c_select_limit, lambda: "Definition gen_select_limit (am_float : bool) (am_n am_d len at_most : Z) : Z := -1."),
     ("agentset_select_keep", SRC, c_select_keep, lambda: "Definition gen_select_keep (a b c d : bool) : bool := negb c."),
